@@ -63,6 +63,8 @@ def parseEnter (s : String) : Option (String × Enter) :=
   | [st, "nop"] => (·, Enter.nop) <$> parseName st
   | [st, "raise"] => (·, Enter.raise) <$> parseName st
   | [st, "set", k, v] => do pure (← parseName st, Enter.setS (← parseName k) (← Val.parse v))
+  | [st, "chain", e] => do pure (← parseName st, Enter.chain (← parseName e))
+  | [st, "goto", t] => do pure (← parseName st, Enter.goto (← parseName t))
   | _ => none
 
 def parseOutMode (s : String) : Option OutMode :=
@@ -169,6 +171,10 @@ def renderRes : Res → String
   | .unknown => "err UnknownEvent"
   | .handlerError => "err Abort"
 
+/-- the storage after every write made during one event: `W=-` or `W=<store>|<store>…` -/
+def renderWrites (ws : List Storage) : String :=
+  "W=" ++ (if ws.isEmpty then "-" else "|".intercalate (ws.map renderStore))
+
 def renderCirc (c : Circ) : String :=
   s!"ph={renderPhase c.phase} ts={renderOptNat c.ts} B "
     ++ " ".intercalate (c.blocks.map renderBlk) ++ " S " ++ renderStore c.store
@@ -249,8 +255,8 @@ def handle (s : DState) : List String → DState × String
         | some (c, r) => ({ s with circ := c }, renderResF r ++ " " ++ renderCirc c)
         | none => (s, "err not-possible")
       else
-      match s.circ.event cal i ev with
-      | some (c, r) => ({ s with circ := c }, renderRes r ++ " " ++ renderCirc c)
+      match s.circ.eventN cal i ev with
+      | some (c, r, ws) => ({ s with circ := c }, renderRes r ++ " " ++ renderWrites ws ++ " " ++ renderCirc c)
       | none => (s, "err not-possible")
     | _, _, _ => (s, "bad-op")
   | ["fire", i, cal] =>
@@ -261,8 +267,9 @@ def handle (s : DState) : List String → DState × String
         | some (c, r) => ({ s with circ := c }, s!"at={c.now} " ++ renderResF r ++ " " ++ renderCirc c)
         | none => (s, "err not-possible")
       else
-      match s.circ.fire cal i with
-      | some (c, r) => ({ s with circ := c }, s!"at={c.now} " ++ renderRes r ++ " " ++ renderCirc c)
+      match s.circ.fireN cal i with
+      | some (c, r, ws) =>
+        ({ s with circ := c }, s!"at={c.now} " ++ renderRes r ++ " " ++ renderWrites ws ++ " " ++ renderCirc c)
       | none => (s, "err not-possible")
     | _, _ => (s, "bad-op")
   | ["adv", t] =>
